@@ -222,7 +222,7 @@ def gen(ck):
     for _ in range(1500 if not thorough else 40000):
         files.append(smf.random_file(rng, big=thorough and rng.random() < 0.05))
         if rng.random() < 0.15:
-            files[-1]['charset'] = 'utf-8'      # the file's own charset must be in force while its text is encoded and decoded
+            smf.make_utf8(rng, files[-1])       # the file's own charset must be in force while its text is encoded and decoded
     bad = []
     for d in files[:120 if not thorough else 3000]:
         bad += unstorable_variants(rng, d)
